@@ -124,7 +124,7 @@ func rulesC20(e *Engine, r *Report) {
 	}
 
 	// ---------------------------------------------------------------- R20.3
-	r.Rule("R20.3", "removal table: every os.Remove in package stage belongs to the frozen (function, kind) table; there is no os.RemoveAll and no removal of a .wait or .full file outside the validator's unreadable-file arm; no truncation/creation outside initStageFile")
+	r.Rule("R20.3", "removal table: every os.Remove in package stage belongs to the frozen (function, kind) table; there is no os.RemoveAll and no removal of a .wait file at all, and of a .full file only in the validator's unreadable-file arm and in recovery for the leftover of a duplicate whose version the cache knows as delivered with the same hash; no truncation/creation outside initStageFile")
 	{
 		allowed := map[string]string{
 			"stage.(*Stage).cleanStrays|Part":  "stray partial of a delivered file",
@@ -136,6 +136,7 @@ func rulesC20(e *Engine, r *Report) {
 			"stage.(*Stage).initStageFile|Cmp": "stale companion of an unknown/failed file",
 			"stage.(*Stage).putFileAway|Cmp":   "delivered",
 			"stage.(*Stage).Recover|Cmp":       "orphan companion",
+			"stage.(*Stage).Recover|Full":      "leftover of a duplicate of a delivered version",
 			"stage.(*Stage).finalize|Final":    "exported file",
 			"stage.(*Stage).pruneTree|Dir":     "empty directory",
 		}
@@ -198,6 +199,19 @@ func rulesC20(e *Engine, r *Report) {
 		n := e.Guarded(r, "R20.3", "stage.(*Stage).process: removals only for an unreadable staged file", fn, e.instrMatch("call(os.Remove)(§)"), cls,
 			func(l LabelSet) bool { return l.Has("unreadable") }, "FileMD5 returned an error")
 		r.Min("R20.3", "removals in the validator", n, 2)
+	}
+	if top := needFn(e, r, "R20.3", "stage.(*Stage).Recover"); top != nil {
+		n := 0
+		for _, fn := range WithClosures(top) {
+			cls := labeler(
+				C("("+sc.finalized+" <= call(stage.(*Stage).fromCache)(§).state)", "delivered"),
+				C("(call(stage.(*Stage).fromCache)(§).hash == §.hash)", "sameHash"),
+				C("(§.hash == call(stage.(*Stage).fromCache)(§).hash)", "sameHash"),
+			)
+			n += e.Guarded(r, "R20.3", e.ShortName(fn)+": a staged body is removed only as the duplicate of a delivered version", fn, e.instrMatch("call(os.Remove)((§ + \".full\"))"), cls,
+				func(l LabelSet) bool { return l.HasAll("delivered", "sameHash") }, "cache: state >= finalized and the same hash")
+		}
+		r.Min("R20.3", "removals of a .full in recovery", n, 1)
 	}
 	if fn := needFn(e, r, "R20.3", "stage.(*Stage).finalize"); fn != nil {
 		cls := labeler(C("(invoke(sts.Exporter.Upload)(p0.exporter, call(stage.(*Stage).putFileAway)(p0, p1)#0, §) == nil)", "exported"))
